@@ -43,6 +43,10 @@ def run(ctx):
             "the pool fronts and Engine.Run is read from the engine's own zap log (zaptest/observer), markers are logged before the effect they announce",
             "the real grpc gun's warm-up runs against a hand-written in-process reflection endpoint (harness/cmd/hC05/grpcwarm.go); what the "
             "client library (jhump/protoreflect grpcreflect) makes of the endpoint's answers is abstracted to 'descriptors / error of a status code'",
+            "translators encaggr / plugconv / scandecode match the statements of dataSinkAggregator.Run, convertFactoryOutParams + "
+            "pluginConstructor.NewFactory and ScanAmmoDecoder.Decode as normalised source text against the grammar in their headers; the "
+            "encoder aggregator's environment (select order, operation outcomes, dropped samples) and reflect values (implementation / "
+            "plugin interface / error) are abstractions tied to the code by the recorded operation trace (V) and factory calls (F)",
             "modelled, not verified: instances/start loop/provider/aggregator are producers of one result each (their internals: C03, C06, C08, C12); "
             "liveness of the components (each delivers its result once its context is cancelled) is a hypothesis",
         ],
